@@ -216,14 +216,14 @@ def gen_sprite(rng: random.Random, *, max_canvas=10, max_layers=6, max_frames=4,
                 c["w"], c["h"] = rng.randint(1, 8), rng.randint(1, 8)
                 if rng.random() < 0.04:
                     # one dimension beyond 255 (a strip of 256 / 257 / 300 pixels), placed so that its far end lies on the canvas
-                    big = rng.choice([256, 257, 300])
+                    big = rng.choice([256, 257, 300, 300, 32768, 40000])
                     if rng.random() < 0.5:
                         c["w"], c["h"] = big, rng.randint(1, 2)
                     else:
                         c["w"], c["h"] = rng.randint(1, 2), big
                 if c["w"] > 8 or c["h"] > 8:
-                    c["x"] = rng.choice([0, W - 1, -(c["w"] - 2), -(c["w"] - W)]) if c["w"] > 8 else rng.randint(0, W - 1)
-                    c["y"] = rng.choice([0, H - 1, -(c["h"] - 2), -(c["h"] - H)]) if c["h"] > 8 else rng.randint(0, H - 1)
+                    c["x"] = max(-32768, rng.choice([0, W - 1, -(c["w"] - 2), -(c["w"] - W)])) if c["w"] > 8 else rng.randint(0, W - 1)
+                    c["y"] = max(-32768, rng.choice([0, H - 1, -(c["h"] - 2), -(c["h"] - H)])) if c["h"] > 8 else rng.randint(0, H - 1)
                 elif r < 0.5:
                     c["x"], c["y"] = rng.randint(0, W - 1), rng.randint(0, H - 1)
                 elif r < 0.8:
@@ -303,7 +303,13 @@ def build(s: dict, ch: Optional[dict] = None, rng: Optional[random.Random] = Non
         return rng.choice(ch["zlevels"])
 
     def junk(n):
-        return bytes(rng.randrange(256) for _ in range(n)) if ch["unused"] else b"\0" * n
+        if not ch["unused"]:
+            return b"\0" * n
+        if rng.random() < 0.35:
+            # boundary patterns in the first bytes (a reserved field that a later format version reads as a signed or unsigned word)
+            pat = rng.choice([b"\xff\x7f", b"\x00\x80", b"\xff\xff", b"\x01\x00", b"\xfe\x7f", b"\xff\xff\xff\x7f", b"\x00\x00\x00\x80", b"\x04", b"\xff"])
+            return (pat + bytes(rng.randrange(256) for _ in range(n)))[:n]
+        return bytes(rng.randrange(256) for _ in range(n))
 
     def decorate(chunks: List[ase.Chunk]) -> List[ase.Chunk]:
         """tails on chunks, ignorable chunks in the gaps (never between an entity and its user data is NOT
@@ -425,6 +431,10 @@ def build(s: dict, ch: Optional[dict] = None, rng: Optional[random.Random] = Non
         sp.flags = rng.randrange(2 ** 32)
         sp.ncolors = rng.randrange(65536)
         sp.grid = (rng.randint(-32768, 32767), rng.randint(-32768, 32767), rng.randrange(65536), rng.randrange(65536))
+        if s["tilesets"] and rng.random() < 0.5:
+            # a grid whose cell is exactly a tile of one of the tilesets, with an origin that is not a multiple of it
+            t = rng.choice(s["tilesets"])
+            sp.grid = (rng.choice([1, 3, -1, t["tw"] + 1, rng.randint(-40, 40)]), rng.choice([1, 2, -1, t["th"] + 1, rng.randint(-40, 40)]), t["tw"], t["th"])
         sp.ignore = (rng.randrange(256), rng.randrange(65536))
         sp.placeholders = (rng.randrange(2 ** 32), rng.randrange(2 ** 32))
         sp.reserved = junk(84)
